@@ -193,11 +193,15 @@ def run(ctx: Ctx) -> int:
         before = set(os.listdir(ctx.work))
         _AUDIT["events"] = []
         _AUDIT["on"] = True
+        replay = {"platform": plat, "board": board, "port": port, "libs": libs, "source": src}
         try:
             pio.write_project(root, src, port=port, platform="".join(list(plat)), board="".join(list(board)), lib_deps=libs)
+        except Exception as e:  # noqa: BLE001  — every case here is a registered pair: a refusal is the property failing, not the harness
+            _AUDIT["on"] = False
+            ctx.fail("project:registered-pair-refused", f"write_project refused a registered (platform, board) pair: {type(e).__name__}: {str(e)[:160]}", replay)
+            continue
         finally:
             _AUDIT["on"] = False
-        replay = {"platform": plat, "board": board, "port": port, "libs": libs, "source": src}
         ctx.cov["traces_validated_against_impl"] += 1
         in_domain = wf_value(port)
         ctx.case(line, nontrivial=bool(libs) or not board.replace("_", "").isalnum(), sample={"request": replay, "model": m[:160]} if len(ctx.cov["samples"]) < 3 else None)
